@@ -115,10 +115,21 @@ def run_property(prop, repo="/repo", tier="quick", jobs=16):
     for ln in lemma_names:
         tasks.append((prop, "lemma:" + ln, 0, 1, repo, tier))
     ctx = multiprocessing.get_context("fork")
-    with ctx.Pool(min(jobs, max(1, len(tasks)))) as pool:
-        outs = pool.map(_dispatch, tasks, chunksize=1)
+    if tasks:
+        with ctx.Pool(min(jobs, max(1, len(tasks)))) as pool:
+            outs = pool.map(_dispatch, tasks, chunksize=1)
+    else:
+        outs = []
     by_name = {}
     functions, errors, trusted = [], [], set()
+    static_recs = []
+    if hasattr(mod, "STATIC"):
+        try:
+            srepo = core.Repo(repo)
+            for rec in mod.STATIC(srepo):
+                static_recs.append(rec)
+        except Exception:
+            errors.append("static analysis crashed: " + traceback.format_exc())
     guards = {"functions_with_zero_obligations": [], "unsatisfiable_preconditions": [], "unsupported": {}}
     seen_fn = set()
     per_target_total = {}
@@ -166,6 +177,15 @@ def run_property(prop, repo="/repo", tier="quick", jobs=16):
         if status == "undecided":
             rec["reason"] = (r0.get("info") or {}).get("reason") or r0.get("reason")
         obligations.append(rec)
+    seen_static = set()
+    for rec in static_recs:
+        obligations.append({"name": rec["name"], "status": "discharged" if rec["ok"] else "failed", "paths": 1,
+                            "backend": "static-frame-analysis", "time": 0.0, "kind": "frame",
+                            "function": rec["function"], "model_text": rec["detail"], "goal_text": "frame holds",
+                            "input": None, "input_origin": "none"})
+        if rec["function"] not in seen_static and rec.get("sha"):
+            seen_static.add(rec["function"])
+            functions.append({"file": rec["file"], "function": rec["function"], "source_sha256": rec["sha"], "loops": 0})
     # replay counter-models on the real code where the contracts module knows how
     if hasattr(mod, "replay_model"):
         for rec in obligations:
